@@ -259,6 +259,17 @@ def static_check(src, filename, checker="typeguard.typechecked", transform=None)
     if new_code is not None:
         if (new_code.co_flags & FUTURE_MASK) != (plain_code.co_flags & FUTURE_MASK) or new_code.co_flags != plain_code.co_flags:
             P.append(("future-flags", f"co_flags {plain_code.co_flags:#x} -> {new_code.co_flags:#x}"))
+        if transform is None and isinstance(src, str):
+            # the same through the real loader's own compile step (its module's __future__ flags must not leak into the hooked module)
+            try:
+                from jaxtyping._import_hook import _JaxtypingLoader, Typechecker
+                lc = _JaxtypingLoader("b10_mod", filename, typechecker=Typechecker(checker)).source_to_code(src.encode("utf-8"), filename)
+                sub = [c for c in lc.co_consts if hasattr(c, "co_flags")]
+                psub = [c for c in plain_code.co_consts if hasattr(c, "co_flags")]
+                if (lc.co_flags & FUTURE_MASK) != (plain_code.co_flags & FUTURE_MASK) or [c.co_flags & FUTURE_MASK for c in sub][:len(psub)] != [c.co_flags & FUTURE_MASK for c in psub][:len(sub)]:
+                    P.append(("future-flags", f"through _JaxtypingLoader.source_to_code: co_flags {plain_code.co_flags:#x} -> {lc.co_flags:#x}"))
+            except (SyntaxError, ValueError, UnicodeError) as e:
+                P.append(("compiles", f"_JaxtypingLoader.source_to_code: {type(e).__name__}: {e}"[:300]))
         doc = ast.get_docstring(pristine, clean=False)
         if ("__doc__" in new_code.co_names) != ("__doc__" in plain_code.co_names) or (doc is not None and doc not in new_code.co_consts):
             P.append(("docstring", "module docstring no longer stored by the compiled code"))
@@ -348,6 +359,8 @@ HEADERS = {
     "fut;stmt": "from __future__ import annotations; FIRST = 1\n",
     "coding+doc+fut": "# -*- coding: utf-8 -*-\n#!shebang-ish comment\n\n\n'doc \\u00e9'\nfrom __future__ import division, annotations\n",
     "doc+str+int": '"doc"\n"second string statement"\n42\n',
+    "emptydoc": '""\n',
+    "emptydoc+fut": '""\nfrom __future__ import annotations\n',
     "int-first": "42\n",
     "fstring-first": "f'not a docstring {1}'\n",
     "bytes-first": "b'not a docstring'\n",
@@ -355,7 +368,7 @@ HEADERS = {
     "import-first": "import os\nimport jaxtyping as jt\n",
     "own-import-jaxtyping": "'doc'\nimport jaxtyping\n",
 }
-QUICK_HEADERS = ["none", "doc", "fut", "doc+fut", "fut+str", "doc+fut+fut", "doc+str+int", "fut;stmt"]
+QUICK_HEADERS = ["none", "doc", "fut", "doc+fut", "fut+str", "doc+fut+fut", "doc+str+int", "fut;stmt", "emptydoc", "emptydoc+fut"]
 
 PRELUDE = '''TRACE = []
 def rec(*a):
